@@ -205,7 +205,7 @@ def _task(task):
 def _own_unit(part):
     """Asking any object - simple or derived - for its value in its own unit returns it unchanged."""
     with worlds.world("posc") as db:
-        graph, _t = algebra.explore(db, 3)
+        graph, _t = algebra.explore(db, 3, reciprocals=True)
         for st in graph:
             s = algebra.replay(st.history, algebra.BASIS, algebra.PRIMES)
             u = s.GetUnit()
